@@ -3,6 +3,7 @@
 package main
 
 import (
+	"sync"
 	"bytes"
 	"crypto/tls"
 	"errors"
@@ -18,6 +19,7 @@ import (
 
 	fingerproxy "github.com/wi1dcard/fingerproxy"
 	"github.com/wi1dcard/fingerproxy/pkg/http2"
+	"golang.org/x/net/http2/hpack"
 	"github.com/wi1dcard/fingerproxy/pkg/reverseproxy"
 )
 
@@ -164,6 +166,9 @@ func surviveChild(a []string) string {
 	o := defaultE2EOpts()
 	o.TLSHandshakeTimeout = "500ms"
 	o.IdleTimeout = "2s"
+	if v := kv["rto"]; v != "" {
+		o.ReadTimeout = v + "ms"
+	}
 	if kv["kind"] == "panic" && kv["site"] == "injector" {
 		fingerproxy.GetHeaderInjectors = func() []reverseproxy.HeaderInjector {
 			return append(fingerproxy.DefaultHeaderInjectors(), panicInjector{})
@@ -277,11 +282,49 @@ func surviveChild(a []string) string {
 			c.Close()
 		}
 	case "h2bytes":
+		// one connection per comma-separated blob
+		blobs := strings.Split(kv["hex"], ",")
+		sem := make(chan struct{}, 16)
+		var wg sync.WaitGroup
+		for _, hb := range blobs {
+			wg.Add(1)
+			sem <- struct{}{}
+			go func(hb string) {
+				defer func() { <-sem; wg.Done() }()
+				conn, _, _, err := dialProxy(env, clientCfg{kind: "go", sni: "example.test", alpn: []string{"h2"}, peer: "127.0.0.1"})
+				if err == nil {
+					io.WriteString(conn, http2.ClientPreface)
+					conn.Write(unhx(hb))
+					d := 1500 * time.Millisecond
+					if len(blobs) > 1 {
+						d = 120 * time.Millisecond
+					}
+					conn.SetReadDeadline(time.Now().Add(d))
+					io.ReadAll(conn)
+					conn.Close()
+				}
+			}(hb)
+		}
+		wg.Wait()
+	case "h2stall":
+		// the client advertises a zero stream window, so the response body cannot be sent and the stream stays open
+		// until the read timeout fires; body=0: request without body (END_STREAM on HEADERS), body=1: body never sent
 		conn, _, _, err := dialProxy(env, clientCfg{kind: "go", sni: "example.test", alpn: []string{"h2"}, peer: "127.0.0.1"})
 		if err == nil {
 			io.WriteString(conn, http2.ClientPreface)
-			conn.Write(unhx(kv["hex"]))
-			conn.SetReadDeadline(time.Now().Add(1500 * time.Millisecond))
+			fr := http2.NewFramer(conn, conn)
+			fr.WriteSettings(http2.Setting{ID: http2.SettingInitialWindowSize, Val: 0})
+			var hb bytes.Buffer
+			enc := hpack.NewEncoder(&hb)
+			method := "GET"
+			if kv["body"] == "1" {
+				method = "POST"
+			}
+			for _, f := range [][2]string{{":method", method}, {":scheme", "https"}, {":path", "/stall"}, {":authority", "example.test"}, {"x-verif-tag", "stall"}} {
+				enc.WriteField(hpack.HeaderField{Name: f[0], Value: f[1]})
+			}
+			fr.WriteHeaders(http2.HeadersFrameParam{StreamID: 1, BlockFragment: hb.Bytes(), EndHeaders: true, EndStream: kv["body"] != "1"})
+			conn.SetReadDeadline(time.Now().Add(1200 * time.Millisecond))
 			io.ReadAll(conn)
 			conn.Close()
 		}
@@ -335,6 +378,37 @@ func init() {
 				c.tag("kind:panic")
 				c.op(fmt.Sprintf("survive kind=panic site=%s proto=%s", site, proto))
 			}
+		}
+		// stalls with a short read timeout (timer paths), with and without a request body
+		for _, body := range []int{0, 1} {
+			c.tag("kind:h2stall")
+			c.op(fmt.Sprintf("survive kind=h2stall rto=300 body=%d", body))
+		}
+		// every HEADERS layout around the padding / priority boundaries, one connection each
+		var blobs []string
+		for _, fl := range []byte{0x08, 0x20, 0x28, 0x0c, 0x24, 0x2c, 0x2d, 0x09} {
+			for _, n := range []int{0, 1, 4, 5, 6, 7, 12, 17} {
+				pads := []int{0, 1, n - 7, n - 6, n - 5, n - 2, n - 1, n, n + 1, 255}
+				for _, pad := range pads {
+					if pad < 0 || pad > 255 {
+						continue
+					}
+					payload := make([]byte, n)
+					if n > 0 {
+						payload[0] = byte(pad)
+					}
+					fr := []byte{byte(n >> 16), byte(n >> 8), byte(n), 1, fl, 0, 0, 0, 1}
+					blobs = append(blobs, hx(append(append([]byte{0, 0, 0, 4, 0, 0, 0, 0, 0}, fr...), payload...)))
+				}
+			}
+		}
+		for i := 0; i < len(blobs); i += 40 {
+			j := i + 40
+			if j > len(blobs) {
+				j = len(blobs)
+			}
+			c.tag("kind:h2headers-layouts")
+			c.op("survive kind=h2bytes hex=" + strings.Join(blobs[i:j], ","))
 		}
 		for i := 0; i < c.count; i++ {
 			r := c.rng.fork()
